@@ -78,6 +78,10 @@ type VerifDnsCtl struct {
 	bgInfl    map[string]int
 	asking    map[int]int // managed thread id -> nesting depth of Ask
 	createdNs int64
+	// environment fault: the next N calls of the routing-sync callback (CacheAccessCallback, production:
+	// BatchUpdateDomainRouting writing the kernel map) fail, as a kernel map update can
+	failAccess     int
+	AccessFailures int
 }
 
 var (
@@ -155,7 +159,7 @@ func (f *verifScriptedForwarder) ForwardDNS(ctx context.Context, data []byte) (*
 	return resp, nil
 }
 
-// verifTagRR builds a record of type qtype (SOA, TXT, SVCB, HTTPS) tagged with addr.
+// verifTagRR builds a record of type qtype (SOA, TXT, SVCB, HTTPS, CAA) tagged with addr.
 func verifTagRR(name string, qtype uint16, ttl uint32, addr netip.Addr) dnsmessage.RR {
 	tag := "t-" + strings.NewReplacer(".", "-", ":", "-").Replace(addr.String()) + ".verif."
 	hdr := dnsmessage.RR_Header{Name: name, Rrtype: qtype, Class: dnsmessage.ClassINET, Ttl: ttl}
@@ -168,6 +172,8 @@ func verifTagRR(name string, qtype uint16, ttl uint32, addr netip.Addr) dnsmessa
 		return &dnsmessage.SVCB{Hdr: hdr, Priority: 1, Target: tag}
 	case dnsmessage.TypeHTTPS:
 		return &dnsmessage.HTTPS{SVCB: dnsmessage.SVCB{Hdr: hdr, Priority: 1, Target: tag}}
+	case dnsmessage.TypeCAA:
+		return &dnsmessage.CAA{Hdr: hdr, Flag: 0, Tag: "issue", Value: tag}
 	}
 	return nil
 }
@@ -190,6 +196,8 @@ func verifRRIdent(rr dnsmessage.RR) (netip.Addr, bool) {
 		tag = b.Target
 	case *dnsmessage.HTTPS:
 		tag = b.Target
+	case *dnsmessage.CAA:
+		tag = b.Value
 	}
 	if !strings.HasPrefix(tag, "t-") || !strings.HasSuffix(tag, ".verif.") {
 		return netip.Addr{}, false
@@ -306,6 +314,21 @@ func VerifNewDnsCtl(o VerifDnsOpts, script VerifScript) (*VerifDnsCtl, error) {
 		return &dialArgument{l4proto: consts.L4ProtoStr_UDP, ipversion: consts.IpVersionStr_4, bestTarget: tgt, mark: e.id}, nil
 	}
 	opt.TimeoutExceedCallback = func(*dialArgument, error) {}
+	// fault seam around the PRODUCTION access callback (default: passes straight through)
+	prodAccess := opt.CacheAccessCallback
+	opt.CacheAccessCallback = func(cache *DnsCache) error {
+		e.mu.Lock()
+		fail := e.failAccess > 0
+		if fail {
+			e.failAccess--
+			e.AccessFailures++
+		}
+		e.mu.Unlock()
+		if fail {
+			return fmt.Errorf("BatchUpdateDomainRouting: injected kernel map update failure")
+		}
+		return prodAccess(cache)
+	}
 	e.opt = opt
 	r0, err := verifDnsRoutingFor("u1")
 	if err != nil {
@@ -333,6 +356,19 @@ func verifKeyable(ss []string) []config.KeyableString {
 func (e *VerifDnsCtl) Close() {
 	verifCtls.Delete(e.id)
 	_ = e.Ctrl.Close()
+}
+
+// FailNextAccessCallbacks arms the fault: the next n routing-sync callbacks return an error.
+func (e *VerifDnsCtl) FailNextAccessCallbacks(n int) {
+	e.mu.Lock()
+	e.failAccess = n
+	e.mu.Unlock()
+}
+
+func (e *VerifDnsCtl) ArmedAccessFailures() int {
+	e.mu.Lock()
+	defer e.mu.Unlock()
+	return e.failAccess
 }
 
 func (e *VerifDnsCtl) SetScript(s VerifScript) {
@@ -613,6 +649,7 @@ func (e *VerifDnsCtl) ReloadClone() (*VerifDnsCtl, error) {
 	for k, v := range e.maxBg {
 		n.maxBg[k] = v
 	}
+	n.failAccess = e.failAccess
 	e.mu.Unlock()
 	n.cp.pendingDnsReloadCache = entries
 	n.cp.replayDnsReloadCache()
